@@ -11,6 +11,7 @@ mod cal;
 mod ast;
 mod astgen;
 mod interp;
+mod progs;
 mod props;
 
 use engine::{Ctx, Tier};
@@ -35,6 +36,30 @@ fn main() {
                 let f = cal::fields(d * 86400, 0, 0);
                 println!("{} {} {} {} {} {} {} {} {}", f.year, f.month, f.day, f.wday, f.ordinal, f.week_sun, f.week_mon, f.iso_year, f.iso_week);
                 d += step;
+            }
+        }
+        "leaktest" => {
+            let rss = || std::fs::read_to_string("/proc/self/statm").ok().and_then(|s| s.split_whitespace().nth(1).and_then(|x| x.parse::<u64>().ok())).unwrap_or(0) * 4 / 1024;
+            let which = args.get(2).map(|s| s.as_str()).unwrap_or("build");
+            let partials = vec![("p".to_string(), "{% assign y = 1 %}{{ x }}".to_string()), ("q".to_string(), "q{{ y }}".to_string())];
+            let data = rv::obj(vec![("x", rv::st("X"))]);
+            for i in 0..200_000u64 {
+                match which {
+                    "build" => {
+                        let _ = lq::parser_with_partials(lq::Policy::Eager, &partials);
+                    }
+                    "render" => {
+                        let p = lq::parser_with_partials(lq::Policy::Eager, &partials).unwrap().unwrap();
+                        let _ = lq::run_rv(&p, "{% include 'p' %}{% for i in (1..3) %}{% include 'q' y: i %}{% endfor %}", &data);
+                    }
+                    _ => {
+                        let p = lq::parser(lq::Conf::Stdlib);
+                        let _ = lq::run_rv(&p, "{% for i in (1..3) %}{{ i }}{% endfor %}", &data);
+                    }
+                }
+                if i % 20_000 == 0 {
+                    println!("{which} iter {i} rss {} MB", rss());
+                }
             }
         }
         "list" => {
